@@ -7,7 +7,7 @@ class C17(MetaBase):
     id = "C17"
     model_targets = ["Pack.vo", "Corr/C17.vo"]
     proof_target = "Props/C17.vo"
-    theorems = ["C17_total", "C17_faithful", "C17_accessors_safe"]
+    theorems = ["C17_total", "C17_faithful", "C17_accessors_safe", "C17_create_parse", "C17_create_file_parse"]
     coq_header = "From Rdest Require Import Base BCodec DeepFinder Metainfo Corr.MetaCase Corr.C17.\nOpen Scope N_scope.\n"
     corr_name = "Metainfo::from_bencode + accessors vs Metainfo.v"
     classes = {1: "piece-length-zero", 2: "total-length-overflow", 3: "piece-length-zero+total-length-overflow"}
